@@ -16,8 +16,8 @@ import (
 // symbolic run (abstract entities, an abstract armour whose signature token names the key and the signed text).
 
 var (
-	verifKeyMu sync.Mutex
-	verifPGPKeys  = map[int]*openpgp.Entity{}
+	verifKeyMu   sync.Mutex
+	verifPGPKeys = map[int]*openpgp.Entity{}
 )
 
 func verifKey(i int) *openpgp.Entity {
@@ -45,8 +45,13 @@ func verifClearsign(text string, key int) string {
 	return buf.String()
 }
 
-// keyring modes: 1 empty, 2 {key 0}, 3 {key 1}, 4 {key 0, key 1}
+// keyring modes: 1 empty, 2 {key 0}, 3 {key 1}, 4 {key 0, key 1}, 5 the zero value (a nil list, as
+// openpgp.ReadKeyRing gives for an empty keyring file)
 func verifKeyring(mode int) *openpgp.EntityList {
+	if mode == 5 {
+		var zero openpgp.EntityList
+		return &zero
+	}
 	kr := openpgp.EntityList{}
 	if mode == 2 || mode == 4 {
 		kr = append(kr, verifKey(0))
